@@ -288,4 +288,10 @@ def obligations(tier):
             for v in ("plain", "math", "precise"):
                 add(f"ceiling_floor[{v},j={j},s={SIGS[si]}]", "kb_ceiling_floor", (j, v, si), 200, group="ceilfloor")
         add(f"even_odd[j={j}]", "kb_even_odd", (j,), 200, group="evenodd")
+    # more decimal places than a fixed-point rendering keeps by default (six)
+    for j in ((7,) if tier == "quick" else (7, 8)):
+        for d in ((0, 2) if tier == "quick" else (0, 2, 6, 7)):
+            add(f"round[j={j},d={d}]", "kb_round", (j, d), group="round")
+            add(f"updown[j={j},d={d}]", "kb_updown", (j, d), group="round")
+            add(f"trunc_exact[j={j},d={d}]", "kb_trunc_real", (j, d), group="trunc")
     return obs
